@@ -584,7 +584,12 @@ Definition nif_body (again : D unit) (pkt : option pdu) : D unit :=
   when b check_limit_handling ;;;
   b <- step_is DS_WAITING_FOR_MISSING_DATA ;;
   when b
-    ((match pkt with Some (PEof _ _ _ _ _) => prepare_eof_ack_packet | _ => ret tt end) ;;;
+    ((match pkt with
+      | Some (PEof _ cond ck sz _) =>
+          if cond =? C_NO_ERROR then prepare_eof_ack_packet
+          else (setp (fun p => p <| p_deferred := false |>) ;;; handle_eof_pdu cond ck sz)
+      | _ => ret tt
+      end) ;;;
      (match pkt with
       | Some (PFileData _ off data) =>
           handle_fd_pdu off data ;;;
@@ -625,15 +630,22 @@ Proof.
   apply stage; [exact HJ3 | discriminate | discriminate | apply check_limit_handling_spec |].
   intros s4 HJ4.
   apply stage; [exact HJ4 | discriminate | discriminate | |].
-  { intros s0 Hn0. fstep.
-    eapply post_bind with (Q1 := fun _ s5 => J s5) (E1 := J).
-    - destruct pkt as [[ | | | | | | | ]|]; try (mfin; jdone).
-      eapply post_bind; [apply handle_fd_pdu_spec; ni | intros; assumption |].
-      intros u5 s5 HJ5. mrun. destruct (p_deferred (d_p s5)) eqn:Hd; [|mfin; exact HJ5].
-      assert (NI s5) as Hn5 by (apply J0_NI; [jdone | intro X; rewrite X in Hd; discriminate Hd]).
-      flast.
-    - intros; assumption.
-    - intros u5 s5 HJ5. apply deferred_safe. exact HJ5. }
+  { intros s0 Hn0.
+    destruct pkt as [[h off data| |h c ck sz fl| | | | | ]|]; try (rewrite !b_ret; apply deferred_safe; jdone).
+    - rewrite b_ret.
+      eapply post_bind with (Q1 := fun _ s5 => J s5) (E1 := J).
+      + eapply post_bind; [apply handle_fd_pdu_spec; ni | intros; assumption |].
+        intros u5 s5 HJ5. mrun. destruct (p_deferred (d_p s5)) eqn:Hd; [|mfin; exact HJ5].
+        assert (NI s5) as Hn5 by (apply J0_NI; [jdone | intro X; rewrite X in Hd; discriminate Hd]).
+        flast.
+      + intros; assumption.
+      + intros u5 s5 HJ5. apply deferred_safe. exact HJ5.
+    - (* a re-sent EOF is acknowledged; an EOF (cancel) gets the Cancel Response Procedures (F33 repair) *)
+      eapply post_bind with (Q1 := fun _ s5 => J s5) (E1 := J).
+      + destruct (c =? C_NO_ERROR); [flast|].
+        mrun. apply handle_eof_pdu_spec. ni.
+      + intros; assumption.
+      + intros u5 s5 HJ5. rewrite b_ret. apply deferred_safe. exact HJ5. }
   intros s5 HJ5.
   rewrite b_step_is.
   eapply post_bind with (Q1 := fun _ s6 => J s6) (E1 := J).
